@@ -186,7 +186,7 @@ class C05(Prop):
         """a history of derivations, queries and relabellings over a few live arrays, then probes"""
         rank = rng.choice([1, 1, 2])
         arr = gen.clean(gen.rand_array(rng, rank=rank, maxn=5, minn=2, kinds=[rng.choice(["i", "i", "f"]) for _ in range(rank)]))
-        arr["vkind"] = "f"
+        arr["vkind"] = rng.choice(["f", "f", "i"])
         shapes = [[len(a["labels"]) for a in arr["axes"]]]
         steps = []
         for _ in range(rng.randint(1, 5)):
@@ -209,8 +209,11 @@ class C05(Prop):
                 steps.append(["sort_key", k, d, rng.choice([2, 4, 6])]); shapes.append(list(sh))
             elif r < 0.78:
                 steps.append(["copy", k]); shapes.append(list(sh))
-            elif r < 0.9 and sh[d] >= 1:
+            elif r < 0.86 and sh[d] >= 1:
                 steps.append(["relabel", k, d, rng.randrange(sh[d]), rng.choice([-7, 50, 3, 12])])
+            elif r < 0.93:
+                # assignment through the `values` setter: a scalar or a row, broadcast over the array
+                steps.append(["set_values", k, rng.choice(["nan", "float", "row", "int"])])
             elif sh[d] >= 1:
                 steps.append(["sort_inplace", k, d])
         return {"op": "hist", "array": arr, "steps": steps, "forms": []}
@@ -284,11 +287,30 @@ class C05(Prop):
                         env.append(a.copy())
                     elif t == "relabel":
                         a.axes[st[2]][st[3]] = st[4]
+                    elif t == "set_values":
+                        how = st[2]
+                        if how == "nan":
+                            a.values = np.nan
+                        elif how == "float":
+                            a.values = 2.5
+                        elif how == "int":
+                            a.values = 7
+                        else:
+                            a.values = np.arange(a.shape[-1]) + 0.5
                     elif t == "sort_inplace":
                         pass
             except Exception:
                 if t in ("slice", "take", "transpose", "copy", "sort_key"):
                     env.append(a)
+        # every live array is still well-formed: one axis per dimension, of the length of that dimension
+        illformed = []
+        for k, a in enumerate(env):
+            if not isinstance(a, DimArray):
+                illformed.append({"var": k, "not_a_dimarray": type(a).__name__})
+            elif len(a.axes) != np.ndim(a.values) or tuple(ax.size for ax in a.axes) != np.shape(a.values):
+                illformed.append({"var": k, "axes": [int(ax.size) for ax in a.axes], "values_shape": list(np.shape(a.values))})
+        if illformed:
+            return {"ok": [], "illformed": illformed}
         # probes: every live array against a freshly constructed equal array
         out = []
         for a in env:
@@ -368,6 +390,8 @@ class C05(Prop):
         if c["op"] == "hist":
             if "err" in io:
                 return {"kind": "P", "differs": ["outcome:" + io["err"]], "msg": io.get("msg")}
+            if io.get("illformed"):
+                return {"kind": "P", "differs": ["illformed_after_history"], "detail": {"first": io["illformed"][0]}}
             for v, res in enumerate(io["ok"]):
                 for r in res:
                     h, f = r["hist"], r["fresh"]
